@@ -464,8 +464,28 @@ func Run(r *mc.Run) {
 	if has(comps, "xz") && has(comps, "zst") {
 		pairs = append(pairs, [2]string{"xz", "zst"})
 	}
-	mustReject := []string{"1.0\n", "3.0\n", "0.939000\n", "", "20.0\n", "12.0\n", "1.2.0\n", "3.2.0\n"}
-	unconstrained := []string{"2.1\n", "2.0", "2.0\nextra\n", "2.0\r\n", "2\n", "02.0\n", "2.00\n"}
+	// format-version alphabet: plain spellings and spellings a numeric (integer / float) parse would read as "two point
+	// something". The only clause asserted is "major number not 2 -> rejected"; the major is the text of the first
+	// line before its first '.', and it is "not 2" when it is not the decimal integer 2 (leading zeros, sign or blanks
+	// make it numerically 2: those, like every 2.x that is not "2.0\n", carry no verdict).
+	versionAlphabet := []string{"1.0\n", "3.0\n", "0.939000\n", "", "20.0\n", "12.0\n", "1.2.0\n", "3.2.0\n",
+		"2.1\n", "2.0", "2.0\nextra\n", "2.0\r\n", "2\n", "02.0\n", "2.00\n",
+		"1.99999999999999999999\n", "1.9999999999999999\n", "0.2e1\n", "20e-1\n", "0x1p1\n", "0x2.0\n", "2e0\n", ".2e1\n", "2_0.0\n", "19999999999999999999e-19\n",
+		"200e-2.0\n", "1e0.0\n", "+2.0\n", " 2.0\n", "2.\n", "2 .0\n", "２.0\n", "Inf\n", "NaN\n", "-2.0\n", "2,0\n", "1.0\n2.0\n", "\n2.0\n"}
+	for _, a := range gen.AuditStrings(gen.OneLine, 4) {
+		versionAlphabet = append(versionAlphabet, a+"\n", a+".0\n", "2."+a+"\n")
+	}
+	for _, n := range gen.AuditIntStrings(0, 1<<31, 6) {
+		versionAlphabet = append(versionAlphabet, n+".0\n", "2."+n+"\n")
+	}
+	var mustReject, unconstrained []string
+	for _, v := range versionAlphabet {
+		if majorIsNot2(v) {
+			mustReject = append(mustReject, v)
+		} else {
+			unconstrained = append(unconstrained, v)
+		}
+	}
 	var rej []In
 	for _, pr := range pairs {
 		for _, ex := range []string{"", "gpgorigin-end", "underscore-after-binary"} {
@@ -594,6 +614,23 @@ func paramSelfCheck(r *mc.Run, c *gen.DebCompressor, blob []byte) {
 		r.HarnessError("gz:0 is not stored deflate (%d < %d bytes)", len(z), len(blob))
 	}
 	r.Extra["declared_dictionary_or_window_bytes"] = decl
+}
+
+// majorIsNot2: the major number of a debian-binary content is certainly not 2. The major is the first line up to its
+// first '.'; after trimming blanks, one sign and leading zeros it must be exactly "2" to count as (possibly) 2.
+func majorIsNot2(content string) bool {
+	line := content
+	if i := strings.IndexByte(line, '\n'); i >= 0 {
+		line = line[:i]
+	}
+	major := line
+	if i := strings.IndexByte(major, '.'); i >= 0 {
+		major = major[:i]
+	}
+	major = strings.TrimSpace(major)
+	major = strings.TrimPrefix(major, "+")
+	major = strings.TrimLeft(major, "0")
+	return major != "2"
 }
 
 // bigMem: the package makes a decoder allocate a large dictionary / window (see BigMem).
